@@ -59,7 +59,15 @@ func hasProp(props []string, p string) bool {
 	return false
 }
 
-var sweepProps = map[string]bool{}
+var checkTmpDir string
+
+func cleanTmp() {
+	if os.Getenv("GOCV_KEEP") == "" && checkTmpDir != "" {
+		os.RemoveAll(checkTmpDir)
+	}
+}
+
+var sweepProps = map[string]bool{"C12": true}
 
 func runCheck(args []string) {
 	fs := flag.NewFlagSet("check", flag.ExitOnError)
@@ -108,7 +116,8 @@ func runCheck(args []string) {
 		t1, t2 = 10, 150
 	}
 	dir := filepath.Join(os.TempDir(), fmt.Sprintf("gocv_%s_%d", *prop, os.Getpid()))
-	defer os.RemoveAll(dir)
+	checkTmpDir = dir
+	defer cleanTmp()
 	all := append([]*Oblig{}, cr.obs...)
 	all = append(all, cr.probes...)
 	e.solveAll(all, dir, t1, t2, 16)
@@ -464,11 +473,11 @@ func (cr *checkRun) report(verif, evPath string, seed int, t0 time.Time, writeBa
 		cr.prop, cr.tier, len(cr.fns), len(cr.obs), discharged, cr.lemmaN, nViol, len(knownPrinted), len(cr.undecided), time.Since(t0).Seconds())
 	_ = e
 	if nViol > 0 {
-		os.Exit(1)
+		cleanTmp(); os.Exit(1)
 	}
 	if len(cr.obs) == 0 {
 		fmt.Println("ERROR: no obligations generated (vacuous check)")
-		os.Exit(2)
+		cleanTmp(); os.Exit(2)
 	}
 }
 
